@@ -177,6 +177,8 @@ def run_case(case):
     if label.startswith("excluded:"):
         return dict(ok=True, nontrivial=False, classes=classes)
     facts = [label] + list((inner or {}).get("facts", []) or [])
+    if gen == "c03":
+        facts += sorted(c03.static_facts(case["case"]["prog"], set()))
     if gen == "c04" and any(d["owner"] != "main" and d["kind"] == "local"
                             for d in case["case"]["decls"]):
         facts.append("subprogram-locals")
@@ -222,6 +224,12 @@ KNOWN = {
     "C05-hash-store-from-narrow-variable": _narrow_hash_store,
     # a with-block that ends in exit() and has an Else leaves the jump over
     # the Else block unreachable
+    # same root cause as C03-bit-test-elif-else: the instruction splicing of
+    # `with bit-test as Else` chains leaves a jump target inside dead code
+    "C05-bit-test-elif-else":
+        lambda case, res: "unreachable-insn" in res.get("facts", ())
+        and case["gen"] == "c03"
+        and "bit-test-elif-else" in res.get("facts", ()),
     "C05-exit-then-else":
         lambda case, res: "unreachable-insn" in res.get("facts", ())
         and case["gen"] == "misc"
